@@ -3,57 +3,85 @@
 (* codec/websocket/stream.go over sonic.AsyncAdapter (C17): one step per      *)
 (* callback boundary.                                                        *)
 (*                                                                            *)
-(*  - AsyncFlush pops ONE frame of pendingFrames, encodes it behind whatever  *)
-(*    the shared write buffer `dst` still holds and hands the whole read area *)
-(*    [si,ri) of dst to the transport (ByteBuffer.AsyncWriteTo); its          *)
-(*    continuation consumes what was written and calls AsyncFlush again.      *)
+(*  - AsyncFlush(cb): nothing queued -> cb at once; a flush in flight -> cb   *)
+(*    waits in flushWaiters; else `flushing` is set and asyncFlush pops ONE   *)
+(*    frame of pendingFrames, encodes it behind whatever the shared write     *)
+(*    buffer `dst` still holds and hands the whole read area [si,ri) of dst   *)
+(*    to the transport (ByteBuffer.AsyncWriteTo); its continuation consumes   *)
+(*    what was written and calls asyncFlush again; with nothing left,         *)
+(*    endFlush clears `flushing`, takes the list of waiters, calls the        *)
+(*    initiator's callback and then the waiters'.                             *)
+(*  - Completion callbacks run application code: a call may carry follow-ups  *)
+(*    (`then` > 0: its callback, completing without error, issues the same    *)
+(*    call again with one follow-up less - a write chained from the write     *)
+(*    callback, a read re-armed from the read callback).  Follow-up calls     *)
+(*    are issued INSIDE the completion (endFlush, the read continuation), so  *)
+(*    they meet `flushing`/flushWaiters in every intermediate state.          *)
+(*  - The peer may put a frame into the same segment as the one before        *)
+(*    (Glue): one transport read then leaves several frames in the codec's    *)
+(*    read buffer `cbuf`, and the next AsyncReadNext completes inside the     *)
+(*    call (a re-armed read finds the second of two coalesced Pings).         *)
 (*  - The adapter never completes inside the call (scheduleRead /             *)
 (*    scheduleWrite always park) and keeps ONE write record and ONE read      *)
 (*    record: a second AsyncWriteAll overwrites buffer, progress and          *)
 (*    callback (asyncAdapterWriteReactor.init).                               *)
-(*  - BUG_SingleRecord = TRUE: AsyncFlush as before the repair - every caller *)
-(*    with frames queued starts a transport write, so overlapping flushes     *)
-(*    overwrite the adapter's record (first continuation lost; after a        *)
-(*    partial write the restart from offset 0 repeats bytes on the wire).     *)
-(*    FALSE (repaired stream.go): a flush that finds another one in flight    *)
-(*    waits in flushWaiters and is completed by the flush in flight, which    *)
-(*    also writes the frames queued in the meantime.                          *)
+(*  - Up to MaxWriters write-side calls (AsyncWrite, AsyncWriteFrame,         *)
+(*    AsyncClose, AsyncFlush) and one read call are in flight together.       *)
 (*  - Transport writability / readability are environment steps; a write can  *)
 (*    be accepted partially (one unit of a frame's two units).                *)
 (*                                                                            *)
-(* At most one read call and one write-side call (AsyncWrite, AsyncWriteFrame,*)
-(* AsyncClose, AsyncFlush) are in flight at a time - the statement's "an      *)
-(* asynchronous read and an asynchronous write".                              *)
+(* Switches (FALSE = the code as it is):                                      *)
+(*  BUG_SingleRecord  AsyncFlush as before the repair 14866fd - every caller  *)
+(*                    with frames queued starts a transport write, so         *)
+(*                    overlapping flushes overwrite the adapter's record      *)
+(*                    (first continuation lost; after a partial write the     *)
+(*                    restart from offset 0 repeats bytes on the wire).       *)
+(*  BUG_WaitersLive   endFlush ranges over the live flushWaiters and          *)
+(*                    truncates it afterwards (seeded defect C17-2): a waiter *)
+(*                    added while the callbacks run is dropped.               *)
+(*  BUG_CloseBypass   AsyncClose starts asyncFlush without looking at         *)
+(*                    `flushing` (seeded defect C16-2).                       *)
 EXTENDS Integers, Sequences, FiniteSets, TLC, Json
 
 CONSTANTS MaxPeer, MaxCalls,
           PeerKinds, CallApis,
           Partial,            \* TRUE: the transport may accept half a frame
-          BUG_SingleRecord,   \* TRUE: overlapping flushes overwrite the adapter's write record
-          BUG_SecondClose
+          MaxWriters,         \* write-side calls that may be in flight together
+          ReadThens,          \* follow-up counts an explicit read call may carry
+          WriteThens,         \* follow-up counts an explicit AsyncWrite/AsyncWriteFrame may carry
+          Glue,               \* TRUE: a peer frame may share the segment of the one before
+          BUG_SingleRecord, BUG_WaitersLive, BUG_CloseBypass,
+          BUG_SecondClose,
+          Focus
 
 VARIABLES st,     \* [state, pend]
           dst,    \* units in the write buffer's read area: [f, u]  (frame record, unit 1..2)
-          wr,     \* adapter write record [set, buf, sofar, own, kind]
-          wq,     \* flushes waiting for the one in flight (only when ~BUG_SingleRecord)
-          rd,     \* adapter read record [set, own, api]
-          inq,    \* transport read side
+          wr,     \* adapter write record [set, buf, sofar, own]  (own = op whose flush it continues)
+          fl,     \* Stream.flushing
+          wq,     \* Stream.flushWaiters: ops whose AsyncFlush callback waits for the flush in flight
+          rd,     \* adapter read record [set, own]
+          cbuf,   \* frames read from the transport and not yet decoded (codec read buffer)
+          inq,    \* transport read side: [k, t, c, g]  (g = 1: same segment as the item before)
           wbuf,   \* units on the wire not yet recognised as a frame
-          ops,    \* calls in flight: set of [id, api]
-          np, nc,
+          ops,    \* calls in flight: set of [id, api, then]
+          np,     \* peer events used
+          ne,     \* explicit calls used
+          nc,     \* calls issued (explicit + follow-ups) = last call id
           phase,  \* run | fin | done
           mon, hist
 
-vars == <<st, dst, wr, wq, rd, inq, wbuf, ops, np, nc, phase, mon, hist>>
+vars == <<st, dst, wr, fl, wq, rd, cbuf, inq, wbuf, ops, np, ne, nc, phase, mon, hist>>
 
 M == INSTANCE WsSessionMon
 S == INSTANCE WsSessionImpl WITH park <- [api |-> "", id |-> 0], done <- FALSE
 
 ReadApis  == {"AsyncNextFrame", "AsyncNextMessage"}
+WriteApis == {"AsyncWrite", "AsyncWriteFrame"}
 WriteSide == {"AsyncWrite", "AsyncWriteFrame", "AsyncClose", "AsyncFlush"}
 
-NoWr == [set |-> FALSE, buf |-> <<>>, sofar |-> 0, own |-> 0, kind |-> ""]
-NoRd == [set |-> FALSE, own |-> 0, api |-> ""]
+NoOp == [id |-> 0, api |-> "", then |-> 0]
+NoWr == [set |-> FALSE, buf |-> <<>>, sofar |-> 0, own |-> NoOp]
+NoRd == [set |-> FALSE, own |-> NoOp]
 
 Units(f) == <<[f |-> f, u |-> 1], [f |-> f, u |-> 2]>>
 
@@ -72,83 +100,142 @@ Parse(b, evs) ==
       ELSE [evs |-> Append(evs, S!WireEv([k |-> "garbage", t |-> -1, c |-> -1])), rest |-> <<>>]
   ELSE [evs |-> Append(evs, S!WireEv([k |-> "garbage", t |-> -1, c |-> -1])), rest |-> <<>>]
 
-\* ---- continuations ---------------------------------------------------------
+\* ---- the stream and the application's callbacks ----------------------------
 \* All functions below take and return a "machine" record
-\*   x = [st, dst, wr, wq, rd, ops, evs]
+\*   x = [st, dst, wr, fl, wq, rd, cbuf, ops, nc, evs]
+\* and are mutually recursive, as the code is: a completion calls the user's
+\* callback, which starts the next call, which may complete inside the call.
+RECURSIVE Complete(_, _, _, _), StartCall(_, _, _), AsyncFlushOp(_, _), InnerFlush(_, _), EndFlush(_, _),
+          RunWaiters(_, _), FlushCb(_, _), ReadNext(_, _), Deliver(_, _, _)
 
-Done(x, id, api, err) ==
-  [x EXCEPT !.ops = {o \in @ : o.id # id}, !.evs = Append(@, S!DoneEv(api, id, err))]
+\* the user's callback of call o runs with result err (got: what a read surfaced)
+Complete(x, o, err, got) ==
+  LET x1 == [x EXCEPT !.ops = {q \in @ : q.id # o.id}, !.evs = @ \o got \o <<S!DoneEv(o.api, o.id, err)>>]
+  IN IF err = "nil" /\ o.then > 0 THEN StartCall(x1, o.api, o.then - 1) ELSE x1
 
-\* AsyncNextFrame's closure after its flush: gate, then park the transport read
-ReadStage(x, id, api) ==
-  IF ~S!CanReadS(x.st)
-    THEN Done([x EXCEPT !.st.state = "terminated"], id, api, "eof")
-    ELSE [x EXCEPT !.rd = [set |-> TRUE, own |-> id, api |-> api]]
+\* the application calls api (explicitly, or from a callback)
+StartCall(x, api, then) ==
+  LET id == x.nc + 1
+      o  == [id |-> id, api |-> api, then |-> then]
+      t  == IF api \in WriteApis THEN 100 + id ELSE 0
+      c  == IF api = "AsyncClose" THEN 1000 ELSE 0
+      x1 == [x EXCEPT !.nc = id, !.ops = @ \cup {o}, !.evs = Append(@, S!CallEv(api, id, t, c))]
+  IN
+  CASE api \in ReadApis -> AsyncFlushOp(x1, o)
+    [] api \in WriteApis ->
+         IF x1.st.state = "active"
+           THEN AsyncFlushOp([x1 EXCEPT !.st.pend = Append(@, S!Frame("data", t, 0))], o)
+           ELSE Complete(x1, o, "cancelled", <<>>)
+    [] api = "AsyncClose" ->
+         IF x1.st.state = "active" THEN
+           LET x2 == [x1 EXCEPT !.st = [state |-> "closedByUs", pend |-> Append(x1.st.pend, S!Frame("close", 0, c))]]
+           IN IF BUG_CloseBypass THEN InnerFlush([x2 EXCEPT !.fl = TRUE], o) ELSE AsyncFlushOp(x2, o)
+         ELSE Complete(x1, o, IF x1.st.state = "closedByUs" THEN "cancelled" ELSE "eof", <<>>)
+    [] api = "AsyncFlush" -> AsyncFlushOp(x1, o)
 
-FlushDone(x, id, api) ==
-  IF api \in ReadApis THEN ReadStage(x, id, api) ELSE Done(x, id, api, "nil")
+\* Stream.AsyncFlush(callback of o)
+AsyncFlushOp(x, o) ==
+  IF x.st.pend = <<>> THEN FlushCb(x, o)
+  ELSE IF ~BUG_SingleRecord /\ x.fl THEN [x EXCEPT !.wq = Append(@, o)]
+  ELSE InnerFlush([x EXCEPT !.fl = TRUE], o)
 
-\* Stream.AsyncFlush(callback) on behalf of call (id, api)
-StartFlush(x, id, api) ==
-  IF x.st.pend = <<>> THEN FlushDone(x, id, api)
-  ELSE IF ~BUG_SingleRecord /\ x.wr.set THEN [x EXCEPT !.wq = Append(@, [id |-> id, api |-> api])]
+\* Stream.asyncFlush(callback of o): one frame per transport write
+InnerFlush(x, o) ==
+  IF x.st.pend = <<>> THEN EndFlush(x, o)
   ELSE
     LET f  == x.st.pend[1]
         d1 == x.dst \o Units(f)
     IN [x EXCEPT !.st.pend = Tail(@), !.dst = d1,
-                 !.wr = [set |-> TRUE, buf |-> d1, sofar |-> 0, own |-> id, kind |-> api]]
+                 !.wr = [set |-> TRUE, buf |-> d1, sofar |-> 0, own |-> o]]
+
+\* Stream.endFlush
+EndFlush(x, o) ==
+  IF BUG_WaitersLive THEN
+    \* `for _, w := range s.flushWaiters` evaluates the slice once, after the
+    \* initiator's callback ran; what is appended during the loop is not
+    \* visited, and the truncation behind the loop drops it
+    LET x1 == FlushCb([x EXCEPT !.fl = FALSE], o)
+        x2 == RunWaiters(x1, x1.wq)
+    IN [x2 EXCEPT !.wq = <<>>]
+  ELSE
+    RunWaiters(FlushCb([x EXCEPT !.fl = FALSE, !.wq = <<>>], o), x.wq)
+
+RunWaiters(x, ws) == IF ws = <<>> THEN x ELSE RunWaiters(FlushCb(x, ws[1]), Tail(ws))
+
+\* the callback a call handed to AsyncFlush: the read calls go on to the
+\* canRead gate and the transport, the others report to the application
+FlushCb(x, o) ==
+  IF o.api \in ReadApis THEN
+    IF ~S!CanReadS(x.st)
+      THEN Complete([x EXCEPT !.st.state = "terminated"], o, "eof", <<>>)
+      ELSE ReadNext(x, o)
+  ELSE Complete(x, o, "nil", <<>>)
+
+\* CodecConn.AsyncReadNext: decode from the read buffer, else park a transport read
+ReadNext(x, o) ==
+  IF x.cbuf = <<>> THEN [x EXCEPT !.rd = [set |-> TRUE, own |-> o]]
+  ELSE Deliver([x EXCEPT !.cbuf = Tail(@)], o, x.cbuf[1])
+
+\* asyncNextFrame's closure: handleFrame, then AsyncNextFrame's callback
+\* (the application's, or asyncNextMessage's loop)
+Deliver(x, o, p) ==
+  LET h  == S!HandleFrame(x.st, p)
+      g  == S!GotEv(o.id, S!KindOf(p), p.t, IF p.k = "closeValid" THEN p.c ELSE 0)
+      x1 == [x EXCEPT !.st = h.s]
+  IN IF h.err # "nil" THEN Complete(x1, o, h.err, <<>>)
+     ELSE IF o.api = "AsyncNextFrame" \/ p.k = "data" THEN Complete(x1, o, "nil", <<g>>)
+     \* AsyncNextMessage: control frame surfaced, next AsyncNextFrame (flush first)
+     ELSE AsyncFlushOp([x1 EXCEPT !.evs = Append(@, g)], o)
 
 \* ---- actions ----------------------------------------------------------------
-X0 == [st |-> st, dst |-> dst, wr |-> wr, wq |-> wq, rd |-> rd, ops |-> ops, evs |-> <<>>]
+X0 == [st |-> st, dst |-> dst, wr |-> wr, fl |-> fl, wq |-> wq, rd |-> rd, cbuf |-> cbuf, ops |-> ops, nc |-> nc,
+       evs |-> <<>>]
 
 Commit(x, pre, hstep) ==
   LET evs == pre \o x.evs \o <<S!SampleEv(x.st)>> IN
-  /\ st' = x.st /\ dst' = x.dst /\ wr' = x.wr /\ wq' = x.wq /\ rd' = x.rd /\ ops' = x.ops
+  /\ st' = x.st /\ dst' = x.dst /\ wr' = x.wr /\ fl' = x.fl /\ wq' = x.wq /\ rd' = x.rd /\ cbuf' = x.cbuf
+  /\ ops' = x.ops /\ nc' = x.nc
   /\ mon' = M!MonRun(mon, evs)
   /\ hist' = IF phase = "run" /\ hstep.op # ""
                THEN Append(hist, [hstep EXCEPT !.st = S!GoName(x.st.state), !.pend = Len(x.st.pend),
                                                !.nw = S!NWire(evs), !.err = S!LastErr(evs)])
                ELSE hist
 
-HStep(op, api, k, t, c) == [op |-> op, api |-> api, k |-> k, t |-> t, c |-> c, st |-> "", pend |-> 0, nw |-> 0, err |-> ""]
+HStep(op, api, k, t, c, then, glue) ==
+  [op |-> op, api |-> api, k |-> k, t |-> t, c |-> c, then |-> then, glue |-> glue,
+   st |-> "", pend |-> 0, nw |-> 0, err |-> ""]
 
 Init ==
   /\ st = [state |-> "active", pend |-> <<>>]
-  /\ dst = <<>> /\ wr = NoWr /\ wq = <<>> /\ rd = NoRd /\ inq = <<>> /\ wbuf = <<>> /\ ops = {}
-  /\ np = 0 /\ nc = 0 /\ phase = "run"
+  /\ dst = <<>> /\ wr = NoWr /\ fl = FALSE /\ wq = <<>> /\ rd = NoRd /\ cbuf = <<>> /\ inq = <<>> /\ wbuf = <<>>
+  /\ ops = {}
+  /\ np = 0 /\ ne = 0 /\ nc = 0 /\ phase = "run"
   /\ mon = M!MonInit0 /\ hist = <<>>
 
 EofFed == inq # <<>> /\ inq[Len(inq)].k = "eof"
 
-Peer(k) ==
+\* a frame may join the segment of the item before it while that item is unread
+CanGlue(k) == Glue /\ inq # <<>> /\ inq[Len(inq)].k \notin {"eof", "err"} /\ k \notin {"eof", "err"}
+
+Peer(k, g) ==
   /\ phase = "run" /\ np < MaxPeer /\ ~EofFed
-  /\ LET p == [k |-> k, t |-> np + 1, c |-> IF k = "closeValid" THEN 1000 ELSE 0] IN
+  /\ g = 1 => CanGlue(k)
+  /\ LET p == [k |-> k, t |-> np + 1, c |-> IF k = "closeValid" THEN 1000 ELSE 0, g |-> g] IN
      /\ inq' = Append(inq, p) /\ np' = np + 1
-     /\ Commit(X0, <<S!PeerEv(p)>>, HStep("peer", "", k, p.t, p.c))
-     /\ UNCHANGED <<wbuf, nc, phase>>
+     /\ Commit(X0, <<S!PeerEv(p)>>, HStep("peer", "", k, p.t, p.c, 0, g))
+     /\ UNCHANGED <<wbuf, ne, phase>>
 
-CallBody(api, id, t, c) ==
-  LET x1 == [X0 EXCEPT !.ops = @ \cup {[id |-> id, api |-> api]}] IN
-  CASE api \in ReadApis -> StartFlush(x1, id, api)
-    [] api \in {"AsyncWrite", "AsyncWriteFrame"} ->
-         IF st.state = "active"
-           THEN StartFlush([x1 EXCEPT !.st.pend = Append(@, S!Frame("data", t, 0))], id, api)
-           ELSE Done(x1, id, api, "cancelled")
-    [] api = "AsyncClose" ->
-         IF st.state = "active"
-           THEN StartFlush([x1 EXCEPT !.st = [state |-> "closedByUs", pend |-> Append(st.pend, S!Frame("close", 0, c))]], id, api)
-           ELSE Done(x1, id, api, IF st.state = "closedByUs" THEN "cancelled" ELSE "eof")
-    [] api = "AsyncFlush" -> StartFlush(x1, id, api)
+Thens(api) == IF api \in ReadApis THEN ReadThens ELSE IF api \in WriteApis THEN WriteThens ELSE {0}
 
-Call(api) ==
-  /\ phase = "run" /\ nc < MaxCalls
+Call(api, then) ==
+  /\ phase = "run" /\ ne < MaxCalls
   /\ api \in ReadApis => ~\E o \in ops : o.api \in ReadApis
-  /\ api \in WriteSide => ~\E o \in ops : o.api \in WriteSide
+  /\ api \in WriteSide => Cardinality({o \in ops : o.api \in WriteSide}) < MaxWriters
   /\ LET id == nc + 1
-         t  == IF api \in {"AsyncWrite", "AsyncWriteFrame"} THEN 100 + id ELSE 0
+         t  == IF api \in WriteApis THEN 100 + id ELSE 0
          c  == IF api = "AsyncClose" THEN 1000 ELSE 0
-     IN /\ Commit(CallBody(api, id, t, c), <<S!CallEv(api, id, t, c)>>, HStep("call", api, "", t, c))
-        /\ nc' = nc + 1
+     IN /\ Commit(StartCall(X0, api, then), <<>>, HStep("call", api, "", t, c, then, 0))
+        /\ ne' = ne + 1
         /\ UNCHANGED <<inq, wbuf, np, phase>>
 
 \* the transport accepts n units of the parked write: onWrite -> asyncWriteNow
@@ -160,43 +247,32 @@ Writable(n) ==
          x0 == [X0 EXCEPT !.evs = pr.evs]
          x  == IF sofar < Len(wr.buf)
                  THEN [x0 EXCEPT !.wr.sofar = sofar]
-                 ELSE \* completion: Consume(n), releaseFrame, AsyncFlush(callback) again
-                   LET x1 == [x0 EXCEPT !.wr = NoWr, !.dst = SubSeq(@, sofar + 1, Len(@))]
-                       x2 == StartFlush(x1, wr.own, wr.kind)
-                   IN \* a serialising stream now starts the flushes that waited
-                      IF ~BUG_SingleRecord /\ ~x2.wr.set /\ x2.wq # <<>>
-                        THEN StartFlush([x2 EXCEPT !.wq = Tail(@)], x2.wq[1].id, x2.wq[1].api)
-                        ELSE x2
+                 \* completion: Consume(n), releaseFrame, asyncFlush(callback) again
+                 ELSE InnerFlush([x0 EXCEPT !.wr = NoWr, !.dst = SubSeq(@, sofar + 1, Len(@))], wr.own)
      IN /\ wbuf' = pr.rest
         /\ Commit(x, <<S!Ev("Env", "", 0, "writable", 0, 0, "", "", 0)>>,
-                  HStep("env", "", "writable", IF n = Len(wr.buf) - wr.sofar THEN 0 ELSE n, 0))
-        /\ UNCHANGED <<inq, np, nc, phase>>
+                  HStep("env", "", "writable", IF n = Len(wr.buf) - wr.sofar THEN 0 ELSE n, 0, 0, 0))
+        /\ UNCHANGED <<inq, np, ne, phase>>
 
-\* the transport delivers one item to the parked read: onRead -> asyncReadNow
+\* the first segment of the transport's read side
+SegLen(q) == CHOOSE n \in 1..Len(q) : (\A i \in 2..n : q[i].g = 1) /\ (n = Len(q) \/ q[n + 1].g = 0)
+
+\* the transport delivers one segment to the parked read: onRead -> asyncReadNow
 \* -> ByteBuffer.AsyncReadFrom -> CodecConn.AsyncReadNext -> handleFrame -> callback
 Readable ==
   /\ rd.set /\ inq # <<>>
   /\ LET p == inq[1]
-         id == rd.own
-         api == rd.api
+         o == rd.own
+         n == IF p.k \in {"eof", "err"} THEN 1 ELSE SegLen(inq)
          x0 == [X0 EXCEPT !.rd = NoRd]
          x == IF p.k = "eof" THEN
-                Done([x0 EXCEPT !.st.state = "terminated",
-                                !.evs = IF api = "AsyncNextFrame" THEN <<S!GotEv(id, "close", 0, 1006)>> ELSE <<>>],
-                     id, api, "eof")
-              ELSE IF p.k = "err" THEN Done(x0, id, api, "terr")
-              ELSE
-                LET h == S!HandleFrame(st, p)
-                    g == S!GotEv(id, S!KindOf(p), p.t, IF p.k = "closeValid" THEN p.c ELSE 0)
-                    x1 == [x0 EXCEPT !.st = h.s]
-                IN IF h.err # "nil" THEN Done(x1, id, api, h.err)
-                   ELSE IF api = "AsyncNextFrame" \/ p.k = "data"
-                     THEN Done([x1 EXCEPT !.evs = <<g>>], id, api, "nil")
-                     \* AsyncNextMessage: control frame surfaced, next AsyncNextFrame (flush first)
-                     ELSE StartFlush([x1 EXCEPT !.evs = <<g>>], id, api)
-     IN /\ inq' = IF p.k = "eof" THEN inq ELSE Tail(inq)
-        /\ Commit(x, <<S!Ev("Env", "", 0, "readable", 0, 0, "", "", 0)>>, HStep("env", "", "readable", 0, 0))
-        /\ UNCHANGED <<wbuf, np, nc, phase>>
+                Complete([x0 EXCEPT !.st.state = "terminated"], o, "eof",
+                         IF o.api = "AsyncNextFrame" THEN <<S!GotEv(o.id, "close", 0, 1006)>> ELSE <<>>)
+              ELSE IF p.k = "err" THEN Complete(x0, o, "terr", <<>>)
+              ELSE ReadNext([x0 EXCEPT !.cbuf = @ \o SubSeq(inq, 1, n)], o)
+     IN /\ inq' = IF p.k = "eof" THEN inq ELSE SubSeq(inq, n + 1, Len(inq))
+        /\ Commit(x, <<S!Ev("Env", "", 0, "readable", 0, 0, "", "", 0)>>, HStep("env", "", "readable", 0, 0, 0, 0))
+        /\ UNCHANGED <<wbuf, np, ne, phase>>
 
 Env == \/ \E n \in (IF Partial THEN {1} ELSE {}) \cup {Len(wr.buf) - wr.sofar} : Writable(n)
        \/ Readable
@@ -207,23 +283,23 @@ Quiescent == ~wr.set /\ ~(rd.set /\ inq # <<>>)
 \* left to deliver, flush once more, run the loop again, End
 Finish1 ==
   /\ phase = "run" /\ Quiescent /\ phase' = "fin"
-  /\ LET id == nc + 1 IN
-     /\ Commit(StartFlush([X0 EXCEPT !.ops = @ \cup {[id |-> id, api |-> "AsyncFlush"]}], id, "AsyncFlush"),
-               <<S!CallEv("AsyncFlush", id, 0, 0)>>, HStep("", "", "", 0, 0))
-     /\ nc' = nc + 1
-  /\ UNCHANGED <<inq, wbuf, np>>
+  /\ Commit(StartCall(X0, "AsyncFlush", 0), <<>>, HStep("", "", "", 0, 0, 0, 0))
+  /\ UNCHANGED <<inq, wbuf, np, ne>>
 
 Finish2 ==
   /\ phase = "fin" /\ Quiescent /\ phase' = "done"
   /\ mon' = M!MonRun(mon, (IF wbuf # <<>> THEN <<S!WireEv([k |-> "garbage", t |-> -1, c |-> -1])>> ELSE <<>>)
                           \o <<S!EndEv("drained")>>)
-  /\ UNCHANGED <<st, dst, wr, wq, rd, inq, wbuf, ops, np, nc, hist>>
+  /\ UNCHANGED <<st, dst, wr, fl, wq, rd, cbuf, inq, wbuf, ops, np, ne, nc, hist>>
+
+Step == \/ \E k \in PeerKinds, g \in {0, 1} : Peer(k, g)
+        \/ \E a \in CallApis : \E th \in Thens(a) : Call(a, th)
 
 Next ==
   CASE phase = "done" -> FALSE
     [] phase = "fin"  -> (\E n \in {Len(wr.buf) - wr.sofar} : Writable(n)) \/ Readable \/ Finish2
     [] mon.bad # ""   -> Env \/ Finish1
-    [] OTHER          -> (\E k \in PeerKinds : Peer(k)) \/ (\E a \in CallApis : Call(a)) \/ Env \/ Finish1
+    [] OTHER          -> Step \/ Env \/ Finish1
 
 Spec == Init /\ [][Next]_vars
 
@@ -234,11 +310,16 @@ TypeOK ==
   /\ wr.sofar <= Len(wr.buf)
   /\ (wr.set => wr.sofar < Len(wr.buf))
   /\ Cardinality({o \in ops : o.api \in ReadApis}) <= 1
+  /\ Cardinality({o \in ops : o.api \in WriteSide}) <= MaxWriters + (IF phase = "run" THEN 0 ELSE 1)
+  /\ (rd.set => cbuf = <<>>)
 
-\* a serialising stream never has more in the write buffer than the record in flight
-NoOverlap == ~BUG_SingleRecord => (wr.set => wr.buf = dst)
+\* a serialising stream never has more in the write buffer than the record in
+\* flight, and never waiters without a flush in flight
+NoOverlap == ~BUG_SingleRecord /\ ~BUG_CloseBypass =>
+               /\ (wr.set => wr.buf = dst /\ fl)
+               /\ (wq # <<>> => fl /\ wr.set)
 
-View == <<st, dst, wr, wq, rd, inq, wbuf, ops, np, nc, phase,
+View == <<st, dst, wr, fl, wq, rd, cbuf, inq, wbuf, ops, np, ne, nc, phase,
           [mon EXCEPT !.ops = {k \in DOMAIN @ : @[k].done = 0}, !.ponged = {}, !.pongs = {}, !.s1006 = {},
                       !.wseen = {}, !.wtoks = @ \ (mon.wseen \cup mon.refused), !.refused = {}]>>
 
